@@ -207,14 +207,19 @@ def check(prog, rep):
             r3.add(f"family|{ci.name}:{fam}", ok, detail or f"no unguarded cleanup loop for the {fam} family in complete()", wc)
     oh = prog.func("hydrogens/__init__.py", "HydrogenRoutines.optimize_hydrogens").node
     wo = f"pdb2pqr/hydrogens/__init__.py:{oh.lineno} (optimize_hydrogens)"
+    from .shared import reach_matches
     fin = [c for c in calls_in(oh) if U(c.func).endswith(".finalize")]
-    okf = False
+    okf, whyf = False, "no finalize call"
     if fin:
-        g = canon_guards(fin[0])
-        okf = ("len(obj.hbonds) == 0", True) in g and all(tst in ("len(obj.hbonds) == 0", "obj.residue.fixed") for tst, _ in g)
         lp = _enclosing_for(fin[0])
-        okf &= lp is not None and U(lp.iter) == "optlist" and parent(lp) is oh
-    r3.add("no-partner->finalize", okf, f"objects without potential bonds are finalised (guards {[(U(tst), p) for tst, p in guards_of(fin[0])] if fin else '?'})", wo)
+        if lp is not None and U(lp.iter) == "optlist" and parent(lp) is oh and isinstance(lp.target, ast.Name) and U(fin[0].func) == f"{lp.target.id}.finalize":
+            o = lp.target.id
+            amap = {f"len({o}.hbonds) == 0": ("no-bonds", True), f"{o}.hbonds": ("no-bonds", False), f"len({o}.hbonds) > 0": ("no-bonds", False),
+                    f"len({o}.hbonds) < 1": ("no-bonds", True), f"{o}.hbonds == []": ("no-bonds", True), f"{o}.residue.fixed": ("fixed", True)}
+            okf, whyf = reach_matches(_stmt_of(fin[0]), lp, amap, lambda v: None if (v["no-bonds"] and v["fixed"]) else v["no-bonds"])
+        else:
+            whyf = "finalize is not called on the objects of a top-level loop over optlist"
+    r3.add("no-partner->finalize", okf, f"objects without potential bonds (and only those) are finalised: {whyf}", wo)
     comp = [c for c in calls_in(oh) if U(c.func).endswith(".complete")]
     okc = False
     if comp:
@@ -223,8 +228,17 @@ def check(prog, rep):
             not any(isinstance(s, (ast.Break, ast.Continue)) and _enclosing_for(s) is _enclosing_for(lp) for s in iter_stmts(_enclosing_for(lp).body))
     r3.add("network->complete", okc, "every object of every network is completed unconditionally at the end of its network", wo)
     nets = [s for s in iter_stmts(oh.body) if isinstance(s, ast.For) and U(s.iter) == "optlist" and "analyze_connectivity" in U(s)]
-    okn = bool(nets) and sorted(U(s.test) for s in nets[0].body if isinstance(s, ast.If) and isinstance(s.body[-1], ast.Continue)) == ["obj1 in seen", "obj1.residue.fixed"]
-    r3.add("every-open-object-in-a-network", okn, "the network builder skips only fixed or already-seen objects", wo)
+    okn, whyn = False, "network builder not found"
+    if nets and isinstance(nets[0].target, ast.Name):
+        o = nets[0].target.id
+        ac = [c for c in calls_in(nets[0]) if "analyze_connectivity" in U(c.func)]
+        seen_lists = {U(c.func.value) for c in calls_in(nets[0]) if isinstance(c.func, ast.Attribute) and c.func.attr == "append"
+                      and _enclosing_for(c) is not nets[0]}
+        amap = {f"{o}.residue.fixed": ("fixed", True)}
+        for sl in seen_lists:
+            amap[f"{o} in {sl}"] = ("seen", True)
+        okn, whyn = reach_matches(_stmt_of(ac[0]), nets[0], amap, lambda v: not v["fixed"] and not v.get("seen", False)) if ac else (False, "no call")
+    r3.add("every-open-object-in-a-network", okn, f"the network builder skips only fixed or already-seen objects: {whyn}", wo)
     nt_calls = [(U(c.func), [(U(tst), p) for tst, p in guards_of(c)]) for c in sorted(calls_in(nt), key=lambda c: (c.lineno, c.col_offset))
                 if U(c.func).endswith((".optimize_hydrogens", ".cleanup"))]
     okcl = [n for n, _ in nt_calls] == ["hydrogen_routines.optimize_hydrogens", "hydrogen_routines.cleanup"] and all(g == [("args.assign_only", False)] for _, g in nt_calls)
@@ -366,6 +380,12 @@ def _stmt(n):
     while n is not None and not isinstance(n, ast.stmt):
         n = parent(n)
     return n
+
+
+def _stmt_of(node):
+    while node is not None and not isinstance(node, ast.stmt):
+        node = parent(node)
+    return node
 
 
 def _enclosing_for(n):
